@@ -2,6 +2,8 @@ pub mod common;
 
 pub mod recon;
 
+pub mod apifam;
+
 pub mod c01;
 pub mod c02;
 pub mod c03;
